@@ -90,6 +90,11 @@ def build(thorough):
     uni = 'u8' if thorough else 'u6'
     for algo in ('exhaustive', 'exhaustive_stepwise', 'reduced_stepwise'):
         ob(f'modelsearch.{algo}[{uni}]', SEARCH, 'search_ok', dict(VH_ALGO=algo, VH_UNIVERSE=uni))
+    for algo in ('exhaustive', 'exhaustive_stepwise', 'reduced_stepwise'):
+        ob(f'modelsearch.{algo}[off6]', SEARCH, 'search_ok', dict(VH_ALGO=algo, VH_UNIVERSE='off6'))
+    for lo in range(0, 729, 243):
+        ob(f'modelsearch._is_allowed[off6,t={lo}..{lo + 242}]', SEARCH, 'allowed_ok',
+           dict(VH_UNIVERSE='off6', VH_TLO=lo, VH_THI=lo + 243))
     for lo in range(0, 729, 243):
         ob(f'modelsearch._is_allowed[u6,t={lo}..{lo + 242}]', SEARCH, 'allowed_ok',
            dict(VH_UNIVERSE='u6', VH_TLO=lo, VH_THI=lo + 243))
